@@ -140,6 +140,17 @@ CHECKS = {
              'signatures are discovered by running the real evaluation functions on a small input family. Byte-level JSON is '
              'outside; the W-test result (test_distribution is the string "normal") is outside the numeric claim.',
         ref='DESIGN.md 4/C18'),
+    'C19': dict(
+        text='Bounded symbolic model checking of the real zmap_ascii, jma_csv, ingv_horus and csep_ascii readers through '
+             'csep.load_catalog(type=...), behind tokeniser stubs: per record the civil time fields (valid dates of 1900..2199, '
+             'seconds with millisecond fraction, seconds written as 60, HORUS second / minute / hour roll-over, JMA UTC offset) and the '
+             'numeric fields are symbolic; z3 decides one event per record, in file order, fields in the right slots and origin time '
+             'equal to the encoded UTC instant at the format resolution. Reduced scope: NDK is outside (string-level slicing / regex); '
+             'tokenisation is a contract; every reachability witness goes through a real file and the real reader.',
+        note='Trusted: z3; csv.reader / numpy.loadtxt / numpy.genfromtxt stubs (the genfromtxt stub models the 0-d result for a '
+             'single data row); datetime model; exact-real time arithmetic (C15 decides the float steps). HORUS resolution is whole '
+             'seconds, as the repository\'s own test pins.',
+        ref='DESIGN.md 4/C19'),
     'C20': dict(
         text='Bounded relational symbolic model checking: the same real code is executed twice in one exploration, on an input and '
              'on a re-ordered copy, and z3 decides that the outcomes cannot differ: gridding functions and target_event_rates on '
